@@ -1,7 +1,7 @@
 CFG = dict(
     props_file='Props/C08.v',
     coq_targets=['Checks/C08.vo', 'Props/C08.vo'],
-    bin='groupa', bin_args=['c08'], n_quick=100, n_thorough=5000, thorough_args=[],
+    bin='groupa', bin_args=['c08'], n_quick=100, n_thorough=1200, thorough_args=[],
     level_text="C08_limit_truncates: for every limit n, every choice of which rows are emitted first (any `pick` returning a duplicate-free sublist of length min n |A|), every program and EDB, the limited answer is a subset of the unlimited answer A of size min(n,|A|). C08_refuted_intermediate documents the repaired defect (limit applied to every node). Oracle: limits {1,2,3,5,|A|,|A|+1} on every case against the implementation's own unlimited answer.",
     level_note='Trusted: Coq kernel; hand-written Gallina model of clause semantics and of the engine strategy (Model/Datalog.v) — IRBuilder, the optimizer passes and Differential Dataflow are validated by the correspondence, not derived; harness printers.',
     corr_name='eval_engine vs unlimited IQLEngine answer',
